@@ -248,8 +248,15 @@ fn lex_next(cur: &[char], pos: &mut usize, st: &mut St) -> Lex {
                 *pos = cur.len();
                 return Lex::Eol;
             }
-            '#' | '$' | '&' | '^' | '_' | '~' => {
+            '#' | '^' | '~' => {
                 return Lex::Bad("character with a special category code");
+            }
+            // math shift, alignment tab and subscript are character tokens like any other as far as this model goes:
+            // the generators put them into FILE NAMES only (§526 scan_file_name takes every non-blank character token,
+            // whatever its category: `\input part_1`)
+            '$' | '&' | '_' => {
+                *st = St::M;
+                return Lex::Tok(Tok::Ch(c));
             }
             c if !c.is_ascii() || c.is_ascii_control() => {
                 return Lex::Bad("character outside the model's alphabet");
